@@ -36,6 +36,8 @@ def make_probe_class():
             self._log = log                      # SenderLog
             self._yielded = None
             self._finished = False
+            self._resumes = 0                    # resumptions of run() so far
+            self._skind = 0                      # 0: not sleeping on a Timeout; 1: flow.start_time sleep; 2: waiting for the next application write
             super().__init__(env, flow, cc, **kw)
             log.attach(self)
             orig_cb = self.timeout_callback     # bound method of the real class
@@ -70,7 +72,10 @@ def make_probe_class():
             val, exc = None, None
             first = True
             while True:
-                log.begin(["wake"])
+                # a resumption out of a Timeout (start_time / next application write) is its own event kind
+                log.begin(["appwake"] if self._skind else ["wake"])
+                self._resumes += 1
+                self._skind = 0
                 try:
                     if first:
                         ev = next(g)
@@ -86,6 +91,8 @@ def make_probe_class():
                 except Exception as e:
                     log.end(raised=e)
                     raise
+                if type(ev).__name__ == "Timeout":
+                    self._skind = 1 if (first and self.flow.start_time) else 2
                 first = False
                 self._yielded = ev
                 log.end()
@@ -155,6 +162,12 @@ def snapshot(s):
     wake = bool(y is not None and y.triggered and not y.processed)
     if y is None and not s._finished:
         wake = True                                # the Initialize event of the sender process is pending
+    sleep = None
+    if y is not None and type(y).__name__ == "Timeout" and not y.processed:
+        waiting, wake = False, False               # sleeping on env.timeout(...): neither on the store nor runnable
+        for (t_, _, _, ev_) in s.env._queue:
+            if ev_ is y:
+                sleep = qj(t_)
     pend = 0
     for (_, _, _, ev) in s.env._queue:
         if getattr(ev, "resource", None) is st and type(ev).__name__ == "StorePut":
@@ -167,6 +180,8 @@ def snapshot(s):
         "timers": [[k, qj(t.timeout), qj(t.expire_time), bool(t.stopped)] for k, t in s.timers.items()],
         "sent": list(s.sent_packets.keys()),
         "tok": len(st.items), "pend": pend, "wait": waiting, "wake": wake, "fin": bool(s._finished),
+        "last_arr": qj(s.last_arrival), "sleep": sleep, "skind": (s._skind if sleep is not None else 0),
+        "started": bool(s._resumes > 0), "ai": getattr(s, "_arr_n", [0])[0], "si": getattr(s, "_siz_n", [0])[0],
         "cub": ([qj(cc.W_last_max), qj(cc.epoch_start), qj(cc.origin_point), qj(cc.d_min), qj(cc.W_tcp), qj(cc.K), int(cc.ack_cnt)]
                 if hasattr(cc, "W_last_max") else None),
     }
@@ -192,6 +207,28 @@ def build_sender(env, case, log, out=None):
     mss = case["mss"]
     nseg = case["nseg"]
     flow = Flow(flow_id=3, src="a", dst="b", finish_time=float("inf"), size=(nseg * mss if nseg else None))
+    arr_n, siz_n = [0], [0]
+    if case.get("kind") == "app":
+        # the application process of the Flow: scripted inter-write times and write sizes (then a default), any size, start/finish
+        flow.size = case["size"] if case["size"] else None
+        flow.start_time = num(case["start"]) if fr(case["start"]) != 0 else None
+        flow.finish_time = num(case["finish"]) if case["finish"] is not None else float("inf")
+        if case["arr"] is not None:
+            arr, arr_d = [num(x) for x in case["arr"]], num(case["arr_default"])
+
+            def arrival_dist():
+                i = arr_n[0]
+                arr_n[0] += 1
+                return arr[i] if i < len(arr) else arr_d
+            flow.arrival_dist = arrival_dist
+        if case["siz"] is not None:
+            siz, siz_d = list(case["siz"]), case["siz_default"]
+
+            def size_dist():
+                i = siz_n[0]
+                siz_n[0] += 1
+                return siz[i] if i < len(siz) else siz_d
+            flow.size_dist = size_dist
     if case["alg"] == "reno":
         cc = TCPReno(mss=mss, cwnd=num(case["cwnd"]), ssthresh=num(case["ssth"]))
     else:
@@ -201,6 +238,7 @@ def build_sender(env, case, log, out=None):
             cc.cwnd = num(case["cwnd"])
             cc.ssthresh = num(case["ssth"])
     s = Probe(env, flow, cc, log, rtt_estimate=num(case["rtt0"]))
+    s._arr_n, s._siz_n = arr_n, siz_n
     s.mss = mss                                   # the sender's own MSS (512 in the class) follows the controller's
     s.out = TxRec(log, out)
     log.init = snapshot(s)
@@ -281,6 +319,33 @@ def coq_xevent(e):
 def coq_xentry(e):
     tx = cf.lst([cf.pair(cf.z(t[0]), cf.z(t[1])) for t in e["tx"]])
     return f"(mkxentry {coq_xevent(e)} {tx} {coq_state(e['post'])} {coq_cubic(e['post'])} {coq_err(e['raised'])})"
+
+
+def coq_app(p):
+    sl = "None" if p["sleep"] is None else f"(Some ({cf.b(p['skind'] == 2)}, {cf.q(p['sleep'])}))"
+    return f"(mkapp {cf.q(p['last_arr'])} {sl} {cf.b(p['started'])} {cf.nat(p['ai'])} {cf.nat(p['si'])})"
+
+
+def coq_acfg(case):
+    cfg = f"(mkcfg {cf.z(case['mss'])} {cf.z(case['size'] or 0)} {coq_alg(case['alg'])})"
+    fin = "None" if case["finish"] is None else f"(Some {cf.q(case['finish'])})"
+    arr = "None" if case["arr"] is None else f"(Some ({cf.lst([cf.q(x) for x in case['arr']])}, {cf.q(case['arr_default'])}))"
+    siz = "None" if case["siz"] is None else f"(Some ({cf.lst([cf.z(x) for x in case['siz']])}, {cf.z(case['siz_default'])}))"
+    return f"(mkacfg {cfg} {cf.q(case['start'])} {fin} {arr} {siz})"
+
+
+def coq_aevent(e):
+    ev = e["ev"]
+    if ev[0] == "wake":
+        return f"(AWake {cf.q(e['t'])})"
+    if ev[0] == "appwake":
+        return f"(AAppWake {cf.q(e['t'])})"
+    return f"(AEv {coq_event(e, e['post'])})"
+
+
+def coq_aentry(e):
+    tx = cf.lst([cf.pair(cf.z(t[0]), cf.z(t[1])) for t in e["tx"]])
+    return f"(mkaentry {coq_aevent(e)} {tx} {coq_state(e['post'])} {coq_app(e['post'])} {coq_err(e['raised'])})"
 
 
 def coq_entry(e):
